@@ -153,12 +153,54 @@ func buildQueryIndex(c *Ctx) *bsiCase {
 		}
 		bc.m[col] = v
 	}
+	// the stored map may be the outcome of a build HISTORY, not only of one SetValue per column: a bulk load of another
+	// index on disjoint columns into this one (wider or narrower than it), or a wipe through the index's own existence
+	// bitmap followed by a refill of the same columns
+	hist := ""
+	if shape != "empty" && shape != "big" && r.Chance(0.3) {
+		if !bc.fixed && r.Chance(0.6) {
+			o := newBSIX(bc.is64, 0, 0)
+			mag := []int64{3, 255, 1 << 20, 1 << 40, 1<<62 - 1}[r.Intn(5)]
+			olo, ohi := -mag, mag
+			if shape == "nonneg" || shape == "nonneg-small" || r.Chance(0.4) {
+				olo = 0
+			}
+			added := 0
+			for i := 0; i < 1+r.Intn(6); i++ {
+				col := genCol(r, bc.is64)
+				if _, used := bc.m[col]; used {
+					continue
+				}
+				v := genVal(r, olo, ohi)
+				o.setValue(col, v)
+				bc.m[col] = big.NewInt(v)
+				added++
+			}
+			if added > 0 {
+				w := []int{0, 1, 2, 4}[r.Intn(4)]
+				hist = fmt.Sprintf("then ParOr(workers=%d) of an index with BitCount=%d into this one (BitCount=%d)", w, o.bitCount(), bc.x.bitCount())
+				bc.x.parOr(w, o)
+			}
+		} else {
+			bc.x.clearValues(nil, true)
+			for _, col := range bc.m.cols() {
+				v := genVal(r, lo, hi)
+				bc.x.setValue(col, v)
+				bc.m[col] = big.NewInt(v)
+			}
+			hist = "then ClearValues(own existence bitmap) and a refill of the same columns"
+		}
+		c.Count("index_built_by_a_history")
+	}
 	if r.Chance(0.3) {
 		if bc.is64 {
 			bc.x.b64.RunOptimize()
 		} else {
 			bc.x.b32.RunOptimize()
 		}
+	}
+	if hist != "" {
+		c.Step("build history: %s", hist)
 	}
 	c.Step("%s fixed=%v range=[%d,%d] shape=%s BitCount=%d map=%s", bc.x.name(), bc.fixed, bc.lo, bc.hi, shape, bc.x.bitCount(), bc.m)
 	c.Count("index_" + bc.x.name() + "_" + shape)
